@@ -8,6 +8,9 @@
 // usage: bsx [--chdir D] [-f FILE] [--db PATH|--no-db] [--serial|-j N]
 //            [--fs default|device-agnostic|checksum-only] [--record-fs] [--pretend-remove]
 //            [--node NAME | TARGET]
+//        bsx ... --interactive : ONE BuildSystemFrontend for several builds (the supported client
+//            workflow: initialize() resets and reuses the system). Reads lines from stdin --
+//            "build <target hex|->", "node <name hex>", "quit" -- and prints "end" after each result.
 #include "llbuild/Basic/FileSystem.h"
 #include "llbuild/BuildSystem/BuildSystemFrontend.h"
 #include "llbuild/BuildSystem/Command.h"
@@ -17,6 +20,7 @@
 #include "llvm/Support/MemoryBuffer.h"
 
 #include <cstdio>
+#include <iostream>
 #include <mutex>
 #include <string>
 #include <unistd.h>
@@ -124,7 +128,7 @@ public:
 int main(int argc, char** argv) {
   std::vector<std::string> args(argv + 1, argv + argc);
   std::string fsMode = "default", node;
-  bool record = false, pretend = false;
+  bool record = false, pretend = false, interactive = false;
   std::vector<std::string> rest;
   for (size_t i = 0; i < args.size(); ++i) {
     if (args[i] == "--fs") fsMode = args[++i];
@@ -132,6 +136,7 @@ int main(int argc, char** argv) {
     else if (args[i] == "--pretend-remove") { record = true; pretend = true; }
     else if (args[i] == "--node") node = args[++i];
     else if (args[i] == "--dry") gDry = true;
+    else if (args[i] == "--interactive") interactive = true;
     else if (args[i] == "--keep-going") gKeepGoing = true;
     else if (args[i] == "--print-signatures") gPrintSignatures = true;
     else rest.push_back(args[i]);
@@ -148,6 +153,27 @@ int main(int argc, char** argv) {
   if (record) fs.reset(new RecordingFS(std::move(fs), pretend));
   Delegate delegate(sourceMgr);
   BuildSystemFrontend frontend(delegate, invocation, std::move(fs));
+  if (interactive) {
+    auto unhex = [](const std::string& h) {
+      std::string r;
+      if (h == "-") return r;
+      for (size_t i = 0; i + 1 < h.size(); i += 2) r.push_back(char(std::stoi(h.substr(i, 2), nullptr, 16)));
+      return r;
+    };
+    std::string line;
+    while (std::getline(std::cin, line)) {
+      auto sp = line.find(' ');
+      std::string verb = line.substr(0, sp), arg = sp == std::string::npos ? "-" : line.substr(sp + 1);
+      if (verb == "quit") break;
+      bool ok = false;
+      if (verb == "node") ok = frontend.buildNode(unhex(arg));
+      else if (verb == "build") ok = frontend.build(unhex(arg));
+      else { out("bad-request"); continue; }
+      out(std::string("result ") + (ok ? "1" : "0") + " failed=" + std::to_string(delegate.getNumFailedCommands()));
+      out("end");
+    }
+    return 0;
+  }
   bool ok;
   if (!node.empty()) ok = frontend.buildNode(node);
   else ok = frontend.build(invocation.positionalArgs.empty() ? "" : invocation.positionalArgs[0]);
